@@ -7,36 +7,6 @@ Local Open Scope N_scope.
 Definition fresh_in (name : bytes) (tree : list entry) : Prop :=
   forall e, In e tree -> e_path e <> [name].
 
-(* the per-day numbering of a root has no gap: the names starting with the
-   date are exactly date.1 ... date.m *)
-Definition gapfree (d : bytes) (s : list bytes) (m : nat) : Prop :=
-  NoDup s /\
-  (forall n, In n s -> prefixb d n = true -> exists k, (1 <= k <= m)%nat /\ n = with_suffix d k) /\
-  (forall k, (1 <= k <= m)%nat -> In (with_suffix d k) s).
-
-(* every day (dates are strings of length L) is numbered without a gap *)
-Definition all_gapfree (L : nat) (s : list bytes) : Prop :=
-  forall d, length d = L -> exists m, gapfree d s m.
-
-(* cleaning never splits a day: of the directories of one day it removes all
-   or none *)
-Definition whole_days (L : nat) (s vs : list bytes) : Prop :=
-  forall d, length d = L ->
-    (forall n, In n s -> prefixb d n = true -> memb n vs = false) \/
-    (forall n, In n s -> prefixb d n = true -> memb n vs = true).
-
-(* a history whose runs happen on dates of length L and whose removals never
-   split a day; [s] is the root before the first operation *)
-Fixpoint guarded (gen : bytes -> list bytes -> bytes) (L : nat) (s : list bytes) (ops : list op) : Prop :=
-  match ops with
-  | [] => True
-  | o :: ops' =>
-      match o with
-      | Run d => length d = L
-      | Remove vs => whole_days L s vs
-      end /\ guarded gen L (fst (op_step gen s o)) ops'
-  end.
-
 (* no run of the history was handed a name that was already in the root *)
 Definition no_collision (rs : list (bytes * bool)) : Prop := Forall (fun r => snd r = false) rs.
 
